@@ -266,7 +266,7 @@ class Gen:
     def cond(self, d):
         rs = self.rs
         t = ("bool",)
-        c = rs.weighted([(5, "cmp"), (2, "cmpint"), (2, "eqbv"), (2, "chain"), (3, "bit"), (3, "logic"), (1, "not"), (1, "anyall")] if d < 3 else [(3, "cmp"), (3, "bit")])
+        c = rs.weighted([(5, "cmp"), (2, "cmpint"), (2, "eqbv"), (2, "chain"), (2, "chainn"), (3, "bit"), (3, "logic"), (1, "not"), (1, "anyall")] if d < 3 else [(3, "cmp"), (3, "bit")])
         if c == "bit":
             return ["tobool", t, self.bit(max(d, 2) + 1)]
         if c in ("cmp", "cmpint", "chain"):
@@ -283,6 +283,26 @@ class Gen:
                 return ["cmp", t, op, ci, a] if rs.below(2) else ["cmp", t, op, a, ci]
             op2 = rs.choice(["lt", "le", "gt", "ge"])
             return ["chain", t, op, op2, ci, a, self.gen((k, w2), d + 1)]
+        if c == "chainn":
+            # chains of 3-4 operands in which some operands (also neighbouring ones) are compile-time constants: a link
+            # between two constants is folded, the links around it still compare with the right operands
+            k = rs.choice(["U", "S"])
+            ws = self.ports_of_kind(k)
+            n = rs.range(3, 4)
+            const = [rs.below(2) for _ in range(n)]
+            if all(const):
+                const[rs.below(n)] = 0
+            rws = [rs.choice(ws) for _ in range(n)]
+            lim_w = min(w for w, cc in zip(rws, const) if not cc)
+            lim = mask(lim_w) if k == "U" else mask(lim_w - 1)
+            operands = []
+            for j in range(n):
+                if const[j]:
+                    operands.append(["ci", rs.range(0, lim) if k == "U" else rs.range(-lim - 1, lim)])
+                else:
+                    operands.append(self.gen((k, rws[j]), d + 1))
+            ops = [rs.choice(["lt", "le", "gt", "ge", "eq", "ne"])] + [rs.choice(["lt", "le", "gt", "ge"]) for _ in range(n - 2)]
+            return ["chainn", t, ",".join(ops), operands]
         if c == "eqbv":
             w = rs.choice([1, 2, 4])
             return ["cmp", t, rs.choice(["eq", "ne"]), self.gen(("BV", w), d + 1), self.gen(("BV", w), d + 1)]
@@ -358,6 +378,12 @@ def r(e, bit_as_cond=False):
         s1 = {"lt": "<", "le": "<=", "gt": ">", "ge": ">=", "eq": "==", "ne": "!="}[e[2]]
         s2 = {"lt": "<", "le": "<=", "gt": ">", "ge": ">="}[e[3]]
         return f"({r(e[4])} {s1} {r(e[5])} {s2} {r(e[6])})"
+    if op == "chainn":
+        sym = {"lt": "<", "le": "<=", "gt": ">", "ge": ">=", "eq": "==", "ne": "!="}
+        txt = r(e[3][0])
+        for o, x in zip(e[2].split(","), e[3][1:]):
+            txt += f" {sym[o]} {r(x)}"
+        return f"({txt})"
     if op in ("land", "lor"):
         return f"({r(e[2])} {'and' if op == 'land' else 'or'} {r(e[3])})"
     if op == "lnot":
@@ -521,6 +547,10 @@ def ev(e, env):
         x, y, z = num(e[4], env), num(e[5], env), num(e[6], env)
         f = lambda o, p, q: {"lt": p < q, "le": p <= q, "gt": p > q, "ge": p >= q, "eq": p == q, "ne": p != q}[o]
         return int(f(e[2], x, y) and f(e[3], y, z))
+    if op == "chainn":
+        f = lambda o, p, q: {"lt": p < q, "le": p <= q, "gt": p > q, "ge": p >= q, "eq": p == q, "ne": p != q}[o]
+        vals = [num(x, env) for x in e[3]]
+        return int(all(f(o, vals[j], vals[j + 1]) for j, o in enumerate(e[2].split(","))))
     if op == "land":
         return int(bool(ev(e[2], env)) and bool(ev(e[3], env)))
     if op == "lor":
